@@ -11,7 +11,7 @@ OkAt(i) == Why(i) = ""
 
 TInit == l = 1 /\ c = Rec[1].case
 TNext == /\ l <= Len(Rec)
-         /\ (IF OkAt(l) THEN TRUE ELSE PrintT(<<"REJECTED", l, Why(l)>>))      \* a rejected record is reported and the rest still examined
+         /\ (IF OkAt(l) THEN TRUE ELSE PrintT(ToJson([rejected |-> l, why |-> Why(l)])))      \* a rejected record is reported and the rest still examined
          /\ l' = l + 1
          /\ c' = IF l + 1 <= Len(Rec) THEN Rec[l + 1].case ELSE c
 TSpec == TInit /\ [][TNext]_<<l, c>>
